@@ -246,6 +246,11 @@ def classify(params, schedule, run, sc, exc, orders=None):
                 "schedule": {str(k): v for k, v in schedule.items()}, "site": run.stuck["site"], "cause": cause,
                 "detail": {"stuck": {k: v for k, v in run.stuck.items() if k != "progress"},
                            "no_answer_of_the_stuck_call_changes_the_loop_state": True}}
+    if exc in ("divergence", "not_repeatable"):
+        return {"property": "C15", "kind": "generator_behaviour_depends_on_earlier_generate_calls", "engine": "genexplore",
+                "params": pclean, "schedule": {str(k): v for k, v in schedule.items()},
+                "detail": {"note": "the same parameters, seed and RNG answers did not reach the same choice points twice "
+                                   "in one process; the returned scenario is therefore not a function of the parameter set"}}
     if isinstance(exc, dict):
         return {"property": "C15", "kind": "generator_exception:" + exc["type"], "engine": "genexplore",
                 "params": pclean, "schedule": {str(k): v for k, v in schedule.items()}, "site": exc["site"],
